@@ -26,7 +26,7 @@ def write_cfg(ctx, name, npeers, ncids, ops, changes, downs, check=True):
              "CONSTANT MaxOps = %d" % ops, "CONSTANT MaxChanges = %d" % changes, "CONSTANT MaxDowns = %d" % downs]
     if check:
         lines += ["INVARIANT TypeOK", "INVARIANT Agreement", "INVARIANT LastPeerStays", "INVARIANT ReadyImpliesSynced",
-                  "INVARIANT RemovedStops", "PROPERTY NoOpHarmless", "PROPERTY PinsetKept",
+                  "INVARIANT RemovedStops", "INVARIANT StoppedCanRestart", "PROPERTY NoOpHarmless", "PROPERTY PinsetKept",
                   "PROPERTY UnackedFaultyNotCommitted"]
     fn = "RaftMembership_x_%s.cfg" % name
     with open(os.path.join(ctx.specdir(), fn), "w") as f:
@@ -61,6 +61,13 @@ def kinds(steps):
             if (prev["a"] == "shutdown" and prev["p"] == "p1" and s["at"] != "p1") or \
                (prev["a"] == "rm" and prev["out"] == "ok" and prev["p"] == "p1"):
                 ks.add("op-right-after-first-leader-left")
+        if k == "shutdown" and s["out"] == "nosnap":
+            # the newest committed entry is a membership change: no snapshot on shutdown
+            ks.add("shutdown-right-after-membership-change-" + ("first-leader" if s["p"] == "p1" else "follower"))
+            if any(x["a"] == "restart" and x["p"] == s["p"] for x in steps[i + 1:]):
+                ks.add("restart-after-snapshotless-shutdown")
+        if k == "rm" and s["out"] == "ok" and i > 0 and steps[i - 1]["a"] in ("join", "rm", "add", "init"):
+            ks.add("removed-right-after-membership-change")
         if k in ("cpin", "cunpin"):
             k += ("-at-leader" if s["at"] == s["p"] == "p1" else "-at-follower" if s["at"] == s["p"] else "-redirect") + "-" + s["out"]
         if k == "join" and s["pins"]:
